@@ -510,3 +510,134 @@ lemma map_condSlot_vals (kw : Kw) (sl : List MV) (h : sl.all MV.isVal = true) : 
     | fn f acc => simp [MV.isVal] at h
 
 end CuqiVerif.C11.Geo
+
+namespace CuqiVerif.C11.Geo
+
+/-! ## with determined geometries the only writes are labels -/
+
+/-- the log grew by `_variable_name` labels only -/
+def Lab (s s' : St) : Prop := ∃ l, s'.log = l ++ s.log ∧ ∀ w ∈ l, ∃ g, w = Wr.geoVname g
+
+lemma Lab.refl (s : St) : Lab s s := ⟨[], rfl, fun _ h => absurd h (List.not_mem_nil)⟩
+
+lemma Lab.of_log_eq {s s' : St} (h : s'.log = s.log) : Lab s s' := ⟨[], by simpa using h, fun _ h => absurd h (List.not_mem_nil)⟩
+
+lemma Lab.trans {s s1 s2 : St} (h1 : Lab s s1) (h2 : Lab s1 s2) : Lab s s2 := by
+  obtain ⟨l1, e1, p1⟩ := h1
+  obtain ⟨l2, e2, p2⟩ := h2
+  refine ⟨l2 ++ l1, by rw [e2, e1, List.append_assoc], ?_⟩
+  intro w hw
+  rcases List.mem_append.1 hw with h | h
+  · exact p2 w h
+  · exact p1 w h
+
+lemma Frame.allDet {s s' : St} (h : Frame s s') (hall : s.allDetermined) : s'.allDetermined := by
+  intro g hg
+  by_cases hlt : g < s.nG
+  · rw [h.gdim g hlt]; exact hall g hlt
+  · exact h.newG g (by omega) hg
+
+lemma getter_lab {s : St} (hw : WF s) (hall : s.allDetermined) (a : Nat) (ha : a < s.nD) : Lab s (s.getter a).1 := by
+  have hdet : (s.geo (s.dist a).geo).dim ≠ none := hall _ (hw a ha)
+  have hreb : s.rebind a = s := by
+    rcases rebind_cases s a with ⟨he, _⟩ | ⟨k, _, hg, _⟩
+    · exact he
+    · exact absurd hg hdet
+  rcases getter_cases s a with ⟨he, _⟩ | ⟨_, he, _⟩ | ⟨_, n, _, he⟩
+  · rw [he]; exact Lab.refl s
+  · rw [he, hreb]; exact Lab.refl s
+  · rw [he, hreb]
+    exact ⟨[Wr.geoVname (s.dist a).geo], rfl, fun w hw => ⟨_, by simpa using hw⟩⟩
+
+lemma dimOp_lab {s : St} (hw : WF s) (hall : s.allDetermined) (a : Nat) (ha : a < s.nD) : Lab s (s.dimOp a).1 := by
+  rw [dimOp_fst]; exact getter_lab hw hall a ha
+
+lemma evalAt_lab {s : St} (hw : WF s) (hall : s.allDetermined) (b : Nat) (hb : b < s.nD) : Lab s (s.evalAt b).1 := by
+  unfold St.evalAt
+  split
+  · have h1 := dimOp_lab hw hall b hb
+    cases hd : s.dimOp b with
+    | mk s1 r => rw [hd] at h1; cases r <;> exact h1
+  · exact Lab.refl s
+
+lemma run_lab {s : St} (hw : WF s) (hall : s.allDetermined) (op : Op) : Lab s (s.run op).1 := by
+  unfold St.run
+  split
+  · next hr =>
+    cases op with
+    | cond a kw =>
+      show Lab s (s.condOp a kw).1
+      unfold St.condOp
+      split
+      · exact Lab.of_log_eq rfl
+      · exact Lab.refl s
+    | dim a => exact dimOp_lab hw hall a hr
+    | grad a =>
+      show Lab s (s.gradOp a).1
+      unfold St.gradOp
+      split
+      · have h1 := getter_lab hw hall a hr
+        cases hd : s.getter a with
+        | mk s1 r =>
+          rw [hd] at h1
+          cases r with
+          | ok _ => dsimp only; split <;> exact h1
+          | err _ => exact h1
+      · exact Lab.refl s
+    | sample a =>
+      show Lab s (s.sampleOp a).1
+      unfold St.sampleOp
+      split
+      · exact Lab.refl s
+      · have h1 := dimOp_lab hw hall a hr
+        have hf := dimOp_frame hw a hr
+        cases hd : s.dimOp a with
+        | mk s1 r =>
+          rw [hd] at h1 hf
+          cases r with
+          | dim n => dsimp only; exact h1.trans (dimOp_lab hf.wf (hf.allDet hall) a (Nat.lt_of_lt_of_le hr hf.nD))
+          | objD _ => exact h1
+          | objM _ => exact h1
+          | val => exact h1
+          | err _ => exact h1
+    | logd a kw =>
+      show Lab s (s.logdOp a kw).1
+      unfold St.logdOp
+      dsimp only
+      split
+      · exact Lab.refl s
+      · split
+        · exact evalAt_lab hw hall a hr
+        · have hf := condCopy_frame hw a hr kw
+          exact (Lab.of_log_eq (s := s) (s' := (s.condCopy a kw).1) rfl).trans
+            (evalAt_lab hf.wf (hf.allDet hall) s.nD (Nat.lt_succ_self _))
+    | apply m a =>
+      dsimp only
+      split
+      · show Lab s (s.applyOp m a).1
+        unfold St.applyOp
+        have h1 := dimOp_lab hw hall a hr
+        cases hd : s.dimOp a with
+        | mk s1 r =>
+          rw [hd] at h1
+          cases r with
+          | dim n =>
+            dsimp only
+            split
+            · exact h1
+            · exact h1.trans (Lab.of_log_eq rfl)
+          | objD _ => exact h1
+          | objM _ => exact h1
+          | val => exact h1
+          | err _ => exact h1
+      · exact Lab.refl s
+  · exact Lab.refl s
+
+lemma runAll_lab {s : St} (hw : WF s) (hall : s.allDetermined) (ops : List Op) : Lab s (s.runAll ops) := by
+  induction ops generalizing s with
+  | nil => exact Lab.refl s
+  | cons op ops ih =>
+    have hf := run_frame hw op
+    exact (run_lab hw hall op).trans (ih hf.wf (hf.allDet hall))
+
+end CuqiVerif.C11.Geo
